@@ -226,6 +226,8 @@ def shards(tier):
         for v in variants:
             if total > 70000 and v in ("trim_nan0",):
                 continue
+            if total > 300000 and v in ("trim_zero_int",):   # 20-cell grids: default-NaN trim and crop only (time)
+                continue
             for bi in range(nblk):
                 lo, hi = bi * total // nblk, (bi + 1) * total // nblk
                 out.append(("mask_%s_%dx%d#%d" % (v, h, w, bi),
